@@ -8,6 +8,7 @@ package rosort
 
 //@ func Sort$1$1
 //@   props C18
+//@   binds subscriberCtx destination source
 //@   maypanic
 //@   track call.CollectWithContext call.Slice call.SliceStable destination.* loop.*
 //@   ensures [source-error-is-forwarded|C18] res(call.CollectWithContext, 2) != nil ==> trace(call.CollectWithContext(subscriberCtx, source), destination.ErrorWithContext(res(call.CollectWithContext, 1), res(call.CollectWithContext, 2)))
@@ -20,6 +21,7 @@ package rosort
 
 //@ func SortFunc$1$1
 //@   props C18
+//@   binds subscriberCtx destination source
 //@   maypanic
 //@   track call.CollectWithContext call.Slice call.SliceStable destination.* loop.*
 //@   ensures [source-error-is-forwarded|C18] res(call.CollectWithContext, 2) != nil ==> trace(call.CollectWithContext(subscriberCtx, source), destination.ErrorWithContext(res(call.CollectWithContext, 1), res(call.CollectWithContext, 2)))
@@ -32,6 +34,7 @@ package rosort
 
 //@ func SortStableFunc$1$1
 //@   props C18
+//@   binds subscriberCtx destination source
 //@   maypanic
 //@   track call.CollectWithContext call.Slice call.SliceStable destination.* loop.*
 //@   ensures [source-error-is-forwarded|C18] res(call.CollectWithContext, 2) != nil ==> trace(call.CollectWithContext(subscriberCtx, source), destination.ErrorWithContext(res(call.CollectWithContext, 1), res(call.CollectWithContext, 2)))
